@@ -178,6 +178,99 @@ class World:
         sh.see("geometries", geom)
 
 
+
+    # ---- re-entrant update: an observer reacts to a change by updating the block again
+    # (as the simulator's write delegate does).  Outer and nested patches touch disjoint
+    # items, so each changed item must still be notified exactly once with its own values.
+    def nested_update(self, r):
+        sh = self.sh
+        tags = [t for t in self.refs if self.model[t]]
+        if len(tags) < 4:
+            return
+        b0 = self.st.status_block
+        # outer: a random patch of 6..40 bytes (changes several items)
+        n = r.randrange(6, 40)
+        off = r.randrange(0, 1024 - n)
+        seg = bytes(r.randrange(256) for _ in range(n))
+        b1 = b0[:off] + seg + b0[off + n :]
+        changed = [t for t in tags if self.refs[t].decode(b0) != self.refs[t].decode(b1)]
+        if len(changed) < 2:
+            return
+        # nested: a patch at least 4 bytes away from the outer one
+        n2 = r.randrange(1, 12)
+        cands = [o for o in (r.randrange(0, 1024 - n2) for _ in range(20)) if o + n2 + 4 < off or o > off + n + 4]
+        if not cands:
+            return
+        off2 = cands[0]
+        seg2 = bytes(r.randrange(256) for _ in range(n2))
+        b2 = b1[:off2] + seg2 + b1[off2 + n2 :]
+        # the reactor sits on one of the changed items (any position in notification order)
+        rt = r.choice(changed)
+        fired = []
+
+        def reactor(sender, old, new):
+            if not fired:
+                fired.append(1)
+                self.st.replace_status_block_segment(off2, seg2)
+
+        self.st.accessors[rt].watch(reactor)
+        self.calls = []
+        self.cur_b1 = None
+        calls = []
+        saved_log = self.log
+
+        def log(oid, sender, old, new):
+            try:
+                okv = sender.value == new
+            except Exception:
+                okv = False
+            calls.append((oid, sender.tag, old, new, okv))
+
+        self.log = log
+        for c in self.clients.values():
+            c.log = log
+        w = {"struct": self.cls_name, "tables": self.combo, "geometry": "nested", "outer": [off, n], "nested": [off2, n2], "reactor_on": rt}
+        try:
+            self.st.replace_status_block_segment(off, seg)
+        except Exception as e:
+            d = describe_exc(e)
+            sh.violation("C03:update-raise", f"re-entrant update raised {d['type']}: {d['msg']}", dict(w, exc=d))
+            self.st.set_status_block(b2)
+            return
+        finally:
+            self.log = saved_log
+            for c in self.clients.values():
+                c.log = saved_log
+            self.st.accessors[rt].unwatch(reactor)
+        sh.evaluations += 1
+        sh.count("nested_updates")
+        if self.st.status_block != b2:
+            sh.violation("C03:block-content", "block after a re-entrant update is not outer-then-nested", w)
+            self.st.set_status_block(b2)
+            return
+        by = {}
+        for oid, tag, old, new, okv in calls:
+            by.setdefault((tag, oid), []).append((old, new, okv))
+        for tag, ref in self.refs.items():
+            v0, v1, v2 = ref.decode(b0), ref.decode(b1), ref.decode(b2)
+            exp = (1 if v0 != v1 else 0) + (1 if v1 != v2 else 0)
+            for oid, o, kind in self.model[tag]:
+                got = by.get((tag, oid), [])
+                wi = dict(w, item=tag, values=[repr(v0), repr(v1), repr(v2)], observer=kind, calls=[(repr(a), repr(b)) for a, b, _ in got])
+                if len(got) < exp:
+                    sh.violation("C03:missed", f"{tag} changed {v0!r}->{v1!r}->{v2!r} in a re-entrant update but its {kind} observer was called {len(got)}x (nested)", wi)
+                elif len(got) > exp:
+                    sh.violation("C03:spurious" if exp == 0 else "C03:duplicate", f"{tag}: {len(got)} notifications in a re-entrant update, expected {exp}", wi)
+                elif exp == 1 and ref.kind != "Temp":
+                    old, new, okv = got[0]
+                    e_old, e_new = (v0, v1) if v0 != v1 else (v1, v2)
+                    if (old, new) != (e_old, e_new) or not okv:
+                        sh.violation("C03:values", f"{tag} notified ({old!r},{new!r}) in a re-entrant update, expected ({e_old!r},{e_new!r})", wi)
+                    else:
+                        sh.count("notifications_matched")
+        sh.see("geometries", "nested")
+
+
 def gen_update(w: World, r):
     """Pick an (offset, segment, geometry-name) relative to a random item."""
     b = w.st.status_block
@@ -248,7 +341,9 @@ def history(sh, cls_name, combo, seed, nops):
     for step in range(nops):
         x = r.random()
         t = r.choice(tags)
-        if x < 0.70:
+        if x < 0.08:
+            w.nested_update(r)
+        elif x < 0.70:
             off, seg, geom = gen_update(w, r)
             w.update(off, seg, geom)
         elif x < 0.78:
@@ -299,6 +394,7 @@ def main(tier, seed):
     for need in ("second-byte", "first-byte", "foreign-bits", "noop", "adjacent-before", "adjacent-after", "full", "aligned"):
         run.need(need in g, f"update geometry {need} never exercised")
     run.need(run.counters.get("notifications_matched", 0) > 1000, "too few notifications observed")
+    run.need(run.counters.get("nested_updates", 0) > 100, "too few re-entrant updates")
     run.need(run.counters.get("silent_foreign_bit_changes_checked", 0) > 50, "too few silent foreign-bit changes observed")
     run.need(run.counters.get("unwatch_calls", 0) > 20 and run.counters.get("double_registrations", 0) > 20, "observer-set operations not exercised")
     run.need({"function", "lambda", "method"} <= run.sets.get("unwatched_kinds", set()), "not every observer kind was unwatched")
